@@ -14,11 +14,11 @@ cp "$demo" ./seeded_demo_test.go
 echo "== demo with the change (must fail)"
 $GO test -vet=off -run TestSeeded -count=1 . > /tmp/sv_$name.with 2>&1; b=$?
 tail -3 /tmp/sv_$name.with
-git stash -q -- $(git diff --name-only)
+git diff > /tmp/sv_$name.cur; git apply -R /tmp/sv_$name.cur   # (git stash is shared between worktrees: not used)
 echo "== demo without the change (must pass)"
 $GO test -vet=off -run TestSeeded -count=1 . > /tmp/sv_$name.without 2>&1; c=$?
 tail -3 /tmp/sv_$name.without
-git stash pop -q
+git apply /tmp/sv_$name.cur
 rm -f seeded_demo_test.go
 echo "RESULT $name suite=$a demo_with=$b demo_without=$c"
 if [ $a = 0 ] && [ $b != 0 ] && [ $c = 0 ]; then
